@@ -1,5 +1,5 @@
 """Which units exist.  Verus units are modules with a UNIT; Kani units are added below."""
-from units import u2_send, u3_recv, u23_roundtrip, u7_ipc
+from units import u2_send, u3_recv, u23_roundtrip, u7_ipc, u6_router
 
-VERUS_UNITS = [u2_send.UNIT, u3_recv.UNIT, u23_roundtrip.UNIT, u7_ipc.UNIT]
+VERUS_UNITS = [u2_send.UNIT, u3_recv.UNIT, u23_roundtrip.UNIT, u7_ipc.UNIT, u6_router.UNIT]
 KANI_UNITS = []
